@@ -38,6 +38,17 @@ pub fn run_churn(seed: u64, total_ops: u64, out: &mut RunOut) {
         let span = (total_ops / 24).max(20000).min(total_ops - done);
         let mut cap_max = 0usize;
         for step in 0..span {
+            // now and then the cache is emptied (or nearly) in one go and refilled by what follows: cycles must not ratchet the capacity up
+            if rng.below(700) == 0 {
+                match rng.below(5) {
+                    0 => c.clear(),
+                    1 => { let mut d = c.drain(); for _ in 0..rng.usize_below(4) { let _ = if rng.chance(1, 2) { d.next() } else { d.next_back() }; } }
+                    2 => { c.set_max_size(base * rng.usize_below(3)); c.set_max_size(cfg.max); }
+                    3 => { let m = rng.next(); c.retain(|k, _| (m >> (k.id % 64)) & 1 == 1); }
+                    _ => { while c.remove_mru().is_some() {} }
+                }
+                out.stats.count("c13_churn_mass_departures");
+            }
             match rng.below(10) {
                 0..=5 => { let _ = c.insert(TKey::new(next_id, 0), TVal::new(0)); next_id = next_id.wrapping_add(1); }              // fresh key: evicts the LRU once full
                 6 => { let id = next_id.wrapping_sub(1 + rng.below(len as u64) as u32); c.remove(&KeyId(id)); }                       // removal (tombstone)
@@ -155,6 +166,34 @@ pub fn run_hashscale_giant(n: usize, out: &mut RunOut) {
     let cfg = HistCfg { hk: 3, cap0: None, max: usize::MAX, universe: n as u32, events: 0, extreme: false };
     let mut c: Cache<TH> = TH::make(usize::MAX, None, 3);
     for id in 0..n as u32 { let _ = c.insert(TKey::new(id, 0), TVal::new(0)); }
+    // explicit rebuilds of the giant table: every held entry is hashed once, none is lost, the list stays closed and
+    // every key is found where traversal says it is (thresholds inside the rebuild are crossed at 2^21, 2^22, ... entries)
+    for (name, which) in [("reserve giant", 0u8), ("shrink_to_fit giant", 1), ("try_reserve giant", 2)] {
+        let (len0, h0, t0) = (c.len(), counts()[C_HASH], c.verif_table());
+        { use std::io::Write; println!("CASE hashscale giant n={} op={}", n, name); let _ = std::io::stdout().flush(); }
+        match which { 0 => c.reserve(n), 1 => c.shrink_to_fit(), _ => { let _ = c.try_reserve(2 * n + n / 2); } }
+        let d = counts()[C_HASH] - h0;
+        let rebuilt = c.verif_table() != t0;
+        check_bound(out, &cfg, name, d, 0, rebuilt, len0, n);
+        out.stats.eval("C07", mix(&[7070, which as u64, (n >> 20) as u64]));
+        out.stats.eval("C04", mix(&[7040, which as u64, (n >> 20) as u64]));
+        if rebuilt { out.stats.count("c20_giant_rebuilds"); out.stats.max("c20_giant_rebuild_max_len", len0 as u64); }
+        if rebuilt && d > len0 as u64 + 2 { fail(out, "C20", "bound", format!("{} of a cache with {} entries computed {} key hashes (each held entry is hashed once)", name, len0, d), &cfg, "hashscale giant".into()); }
+        let w = c.verif_walk(len0 + 8);
+        if c.len() != len0 || w.forward.len() != len0 || w.forward_end != lru_mem::VerifWalkEnd::Closed || w.backward.len() != len0 || w.backward_end != lru_mem::VerifWalkEnd::Closed {
+            fail(out, "C07", "g1", format!("after {} of a cache with {} entries: len() = {}, forward walk {} nodes ({:?}), backward walk {} nodes ({:?})", name, len0, c.len(), w.forward.len(), w.forward_end, w.backward.len(), w.backward_end), &cfg, "hashscale giant".into());
+            std::mem::forget(c); ledger_reset(); return;
+        }
+        // lookups: a sample of all ids and every id around the powers of two
+        let mut probe: Vec<u32> = (0..n as u32).step_by(997).collect();
+        for sh in 16..31 { let p = 1u64 << sh; for dlt in 0..6u64 { for b in [p.wrapping_sub(dlt), p + dlt] { if (b as usize) < n { probe.push(b as u32); } } } }
+        let mut missing = 0usize; let mut first_missing = None;
+        for id in &probe { if c.peek(&KeyId(*id)).map(|v| v.check_live()) != Some(true) || !c.contains(&KeyId(*id)) { missing += 1; if first_missing.is_none() { first_missing = Some(*id); } } }
+        if missing > 0 { fail(out, "C04", "g3", format!("after {} of a cache with {} entries, {} of {} probed keys that traversal still lists are not found by lookup (first: {:?})", name, len0, missing, probe.len(), first_missing), &cfg, "hashscale giant".into()); std::mem::forget(c); ledger_reset(); return; }
+        // traversal order is insertion order here
+        let order_ok = w.forward.iter().enumerate().step_by(1013).all(|(i, nd)| unsafe { (*nd.key).id } == i as u32);
+        if !order_ok { fail(out, "C05", "order", format!("after {} of a cache with {} entries the recency order is no longer the insertion order", name, len0), &cfg, "hashscale giant".into()); }
+    }
     let keep = 5000usize.min(n / 2);
     let (len0, h0) = (c.len(), counts()[C_HASH]);
     c.set_max_size(keep * base);
